@@ -93,7 +93,7 @@ def run(tier, seed, log, model_runs=True, enlarged=False):
                                    "text is compared with the implementation's at token level; non-trivial = >=2 records"
                                    "; fixed programs: every string over {a, double quote, backslash, newline, single quote} up to "
                                    "length 4 (thorough: 5) as a plain and as a language-tagged value",
-                         extra_cases=progs.string_sweep_programs(sweep) + progs.scoping_programs(("ExportProvn",)) + progs.value_grid_programs(("ExportProvn",)) + progs.subtype_programs(("ExportProvn",)),
+                         extra_cases=progs.string_sweep_programs(sweep) + progs.scoping_programs(("ExportProvn",)) + progs.value_grid_programs(("ExportProvn",)) + progs.subtype_programs(("ExportProvn",)) + progs.equal_values_programs(("ExportProvn",)),
                          theorem_note="C06_* over Provn.escape_provn / ProvnSpec.short_string, long_string")
 
 
